@@ -66,6 +66,8 @@ def run(ctx, col, tier):
     from .c01 import r_capture
     col.guard(r_capture, ctx, col, "R-CAPTURE")
     col.guard(r_rowlang, ctx, col)
+    from .c05 import table_gather_keys
+    col.guard(table_gather_keys, ctx, col, "R-SORT")
 
     # ---- R-EXC: explicit raise sites + the decode error of the iteration
     raises = [n for n in own_nodes(p) if isinstance(n, ast.Raise)]
@@ -300,6 +302,14 @@ def reader_handle(ctx, col):
                 and any(isinstance(a, ast.Constant) and a.value == "newline" for a in ast.walk(c)):
             col.bad("R-HANDLE", en.qualname, en.loc(c), "universal-newline text mode",
                     f"`{norm_src(c)[:80]}` sets a `newline` option for open(): line terminators are no longer translated", stmt="h:newline-kw", definite=True)
+    # an in-memory text stream built from decoded text does no newline translation at all (io.StringIO(initial) has newline='\n')
+    for c in own_nodes(en):
+        if isinstance(c, ast.Call) and (dotted(c.func) or "").rsplit(".", 1)[-1] == "StringIO" and c.args:
+            nl = next((k.value for k in c.keywords if k.arg == "newline"), c.args[1] if len(c.args) > 1 else None)
+            if nl is None or not (isinstance(nl, ast.Constant) and nl.value is None):
+                col.bad("R-HANDLE", en.qualname, en.loc(c), "universal-newline text mode",
+                        f"`{norm_src(c)[:80]}` serves the decoded text from a StringIO, which (unlike TextIOWrapper / open) does not translate line terminators unless "
+                        f"newline=None is given: for bytes with CRLF line ends every comment keeps a trailing `\r`, and CR-only files are one single line", stmt="h:stringio", definite=True)
     p = repo.get_def(f"{IO}.parse_swc")
     # cutting the text by hand and dropping the last piece loses an unterminated last line
     for lp in [n for n in own_nodes(p) if isinstance(n, (ast.For, ast.comprehension))]:
